@@ -232,6 +232,11 @@ func (g *genCtx) nextEvent(family string) sut.Event {
 		}
 	case "Tick":
 		e.D = 1 + g.rng.Intn(4)
+		if g.chance(0.3) {
+			// single units: together with whole ticks they land on either side of a threshold, to the unit
+			e.Act = "Tock"
+			e.D = []int{1, 1, 4, 5, 6}[g.rng.Intn(5)]
+		}
 	case "RegisterPost":
 		e.Pid = g.pid()
 		e.Pw = 1 + g.rng.Intn(len(sut.PwPool))
